@@ -153,7 +153,7 @@ func VerifC49_queryDel() {
 	_, still := after["a"]
 	vrt.Assert(!still, "C49/query-del-key-gone")
 	vrt.Assert(sameExceptC49(before, after, "a"), "C49/query-del-others-unchanged")
-	vrt.Assert(req.Query.Get("a") == "" , "C49/query-del-parsed-view")
+	vrt.Assert(req.Query.Get("a") == "", "C49/query-del-parsed-view")
 }
 
 // VerifC49_queryDelAllExcept: ReqQueryDelAllExcept(["b"]): every key other than b is gone, b kept.
@@ -395,7 +395,8 @@ func queryKeyEditC49(raw, key string, action int) {
 // part 0: query key containing a space, configured key " " on every raw query of 0..N bytes over {+ a = &};
 // part 1: configured key "a b" on concrete raw queries that spell it a+b / a%20b (and a%2Bb = other key);
 // part 2: HOST_SUFFIX_REPLACE where the suffix text may occur in the host more than once: hosts of
-//         1..H bytes over {a b .}, parameters [".b", ".org"] or ["b", "c"].
+//
+//	1..H bytes over {a b .}, parameters [".b", ".org"] or ["b", "c"].
 func VerifC49_focused() {
 	switch vrt.Choose("part", 3) {
 	case 0:
